@@ -1020,7 +1020,13 @@ def str_reverse_simplifier(arg):
 
 def invert_simplifier(expr):
     # ~ if(cond then 1 else 0)  ->  if(cond, ~1, ~0)  ->    if(!cond, 1,0)
-    if expr.op == "If" and expr.args[1].op == "BVV" and expr.args[1].args[0] == 1 and expr.args[2].args[0] == 0:
+    if (
+        expr.op == "If"
+        and expr.args[1].op == "BVV"
+        and expr.args[1].args[0] == 1
+        and expr.args[2].op == "BVV"
+        and expr.args[2].args[0] == 0
+    ):
         return claripy.If(claripy.Not(expr.args[0]), expr.args[1], expr.args[2])
     return None
 
